@@ -9,8 +9,9 @@ from props import c04
 ID = "C19"
 LEAN_MODULES = ["NdInterp.Props.C19", "NdInterp.Props.C09"]
 THEOREM_FILES = [("NdInterp/Props/C19.lean", "C19_"), ("NdInterp/Props/C09.lean", "C09_fast_eq_general")]
-RULE = ("finite, enumerated: `vharness casts` instantiates the real crate (hooks on) for every data dimension type (Ix1..Ix6, IxDyn; 2-D: "
-        "Ix2..Ix6, IxDyn) x element type (f64, f32, i32, i64) x storage (owned, view, shared) x (Interp1D, Interp2D) with an Ix1 query "
+HARNESS_BINS = ["vharness_casts"]
+RULE = ("finite, enumerated: `vharness_casts` instantiates the real crate (hooks on) for every data dimension type (Ix1..Ix6, IxDyn; 2-D: "
+        "Ix2..Ix6, IxDyn) x element type (f64, f32, i32, i64) x storage (owned, view, shared) x (Interp1D, Interp2D) with an Ix1 query (standard layout and stride -1) "
         "(fast path) and for query types Ix0, Ix2, Ix3, IxDyn rank 1/2 (general path): the hook compares type_name/size/align of source "
         "and destination of every cast, the counter shows the fast path was taken exactly where expected, type_name of ndarray's actual "
         "`<Ix1 as DimAdd<D::Smaller>>::Output` is compared with `D`, fast vs general vs single-query results are compared bit for bit. "
@@ -33,17 +34,19 @@ def generate(rng, tier):
             else:
                 xs = gen.axis_f(rng, n, "uniform"); flat = [rng.uniform(-3, 3) for _ in range(gen.shape_size(shape))]
                 qs = [rng.uniform(xs[0], xs[-1]) for _ in range(4)]
+            ql = rng.choice(["c", "rev", "s2", "rev"])      # the query array's memory layout (stride -1 is contiguous too)
             for qtag in ("sta", "dyn"):
                 for ent in ("array", "ainto"):
-                    e = e_array(S, [len(qs)], qs, qtag=qtag) if ent == "array" else e_ainto(S, [len(qs)], [len(qs)] + shape[1:], qs, qtag=qtag, blay="w")
+                    e = e_array(S, [len(qs)], qs, qtag=qtag, lay=ql) if ent == "array" else e_ainto(S, [len(qs)], [len(qs)] + shape[1:], qs, qtag=qtag, lay=ql, blay="w")
                     cases.append({"line": i1_line(S, xs, shape, flat, ("lin", False), e, dtag=rng.choice(["sta", "dyn"])), "meta": {}})
         else:
             shape, _, _, xs, ys, flat = c04.gen_grid(rng, S)
             qx, qy = c04.queries2(rng, xs, ys, 4, S)
             if not qx:
                 continue
+            ql = rng.choice(["c", "rev", "s2", "rev"])
             for qtag in ("sta", "dyn"):
-                cases.append({"line": i2_line(S, xs, ys, shape, flat, False, e_array(S, [len(qx)], qx, qy, qtag=qtag),
+                cases.append({"line": i2_line(S, xs, ys, shape, flat, False, e_array(S, [len(qx)], qx, qy, qtag=qtag, lay=ql),
                                               dtag=rng.choice(["sta", "dyn"])), "meta": {}})
     return cases
 
@@ -71,7 +74,7 @@ def extra(rng, tier):
         if l.startswith("cast "):
             n += 1
             kv = dict(t.split("=", 1) for t in l.split()[1:] if "=" in t)
-            if kv.get("Dq") == "Ix1":
+            if kv.get("Dq") in ("Ix1", "Ix1rev"):
                 fast += 1
                 w = want_ty(kv["D"], kv["interp"] == "2d")
                 if kv.get("out_ty") != w or kv.get("want_ty") != w:
@@ -81,6 +84,6 @@ def extra(rng, tier):
         elif l.startswith("SUMMARY"):
             summary = l
     if summary is None or n < 200:
-        fails.append({"line": "vharness casts", "impl": str(summary), "required": "the enumeration must complete (>= 200 instantiations)"})
+        fails.append({"line": "vharness_casts", "impl": str(summary), "required": "the enumeration must complete (>= 200 instantiations)"})
     return {"nontrivial": n, "evaluations": n, "failures": fails, "hist": {"instantiations": n, "fast_path_instantiations": fast},
             "notes": [summary or "no summary"]}
